@@ -931,6 +931,36 @@ def mc_reject(prog: Program) -> RuleResult:
     return r
 
 
+def pd_fill_silent(prog: Program) -> RuleResult:
+    """The first write of a collection field creates the monitored container, copies the assigned elements into it and only then stores it in
+    the instance's backing attribute; recording happens afterwards, when __set__ re-populates the stored container.  While the container is
+    being created it must stay *unbound*: an element added to a bound container is recorded at once, its inferences run, and an inference that
+    reaches back into this very field (a transitive property, an inverse on an eq=True dataclass) reads a backing attribute that does not
+    exist yet - the constructor `Unit('u', part_of=[division])` raises AttributeError."""
+    r = RuleResult("PD-FILL-SILENT", "a container under construction is filled before it is bound to its owner", floor=1)
+    pd = prog.cls("property_descriptor.PropertyDescriptor")
+    makers = [m for m in pd.methods.values() if any(isinstance(c.func, ast.Name) and any(k.arg == "descriptor" for k in c.keywords) for c in calls_in(m.node))]
+    if not makers:
+        raise AnalysisError("PD-FILL-SILENT: no method of PropertyDescriptor creates a monitored container")
+    for f in sorted(makers, key=lambda x: x.qual):
+        cfg = CFG(f.node)
+        news = {t.id for x in walk_local(f.node) if isinstance(x, ast.Assign) and isinstance(x.value, ast.Call) and any(k.arg == "descriptor" for k in x.value.keywords) for t in x.targets if isinstance(t, ast.Name)}
+        binds = [n for n in cfg.nodes if n.stmt is not None and any(call_name(c) == "_bind_owner" and isinstance(c.func, ast.Attribute) and isinstance(c.func.value, ast.Name) and c.func.value.id in news for part in cfg._own_parts(n) for c in calls_in(part))]
+        fills = [n for n in cfg.nodes if n.stmt is not None and any(call_name(c) in ("_add_item", "append", "add", "extend", "update", "_update", "insert") and isinstance(c.func, ast.Attribute) and isinstance(c.func.value, ast.Name) and c.func.value.id in news for part in cfg._own_parts(n) for c in calls_in(part))]
+        bad = None
+        for b in binds:
+            reach = cfg.reachable(b.id)
+            for fl in fills:
+                hit = (fl.id in reach) if reach is not None else (fl.lineno >= b.lineno)
+                if hit:
+                    bad = bad or (b, fl)
+        r.check(bad is None, f"{f.short}#filled-while-unbound", site(f, bad[0].stmt) if bad else site(f), src(bad[0].stmt)[:80] if bad else f"{len(fills)} fill(s), {len(binds)} bind(s)",
+                "no element is added to the new container after it was bound",
+                f"`{src(bad[0].stmt)[:60] if bad else ''}` binds the new container before `{src(bad[1].stmt)[:50] if bad else ''}` fills it: the elements are recorded - and their inferences run - "
+                "before the container is stored in the instance")
+    return r
+
+
 def _sg_purge(prog):
     # an element written to a field is recorded unless its relation "exists": a pair a swept instance left in the relation index answers for
     # whoever reuses its node index
@@ -972,4 +1002,4 @@ def _pd_field(prog):
 
 def run(prog: Program, tier: str) -> List[RuleResult]:
     alias = pd_alias(prog)
-    return [guard(lambda: _pd_field(prog)), guard(lambda: _sg_purge(prog)), guard(lambda: pd_element(prog)), guard(lambda: mc_cover(prog)), guard(lambda: mc_hook(prog)), alias, guard(lambda: pd_aug(prog, not alias.failed)), guard(lambda: pd_seq(prog)), guard(lambda: pd_single(prog)), guard(lambda: mc_once(prog)), guard(lambda: pd_fresh(prog)), guard(lambda: mc_eq(prog)), guard(lambda: mc_args(prog)), guard(lambda: mc_reject(prog)), guard(lambda: user_truth(prog, ["property_descriptor.property_descriptor", "property_descriptor.monitored_container", "property_descriptor.property_descriptor_relation"], 2))]
+    return [guard(lambda: _pd_field(prog)), guard(lambda: _sg_purge(prog)), guard(lambda: pd_element(prog)), guard(lambda: mc_cover(prog)), guard(lambda: mc_hook(prog)), alias, guard(lambda: pd_aug(prog, not alias.failed)), guard(lambda: pd_seq(prog)), guard(lambda: pd_single(prog)), guard(lambda: mc_once(prog)), guard(lambda: pd_fresh(prog)), guard(lambda: mc_eq(prog)), guard(lambda: mc_args(prog)), guard(lambda: mc_reject(prog)), guard(lambda: pd_fill_silent(prog)), guard(lambda: user_truth(prog, ["property_descriptor.property_descriptor", "property_descriptor.monitored_container", "property_descriptor.property_descriptor_relation"], 2))]
